@@ -125,6 +125,7 @@ func loadRepo(o LoadOpts) (*Ctx, error) {
 	prog.Build()
 	c.Prog = prog
 	c.LogS = prog.Package(c.Log.Types)
+	closedWorldNoImpl = func(it *types.Interface) bool { return len(c.implementers(it)) == 0 }
 	c.ExprS = prog.Package(c.Expr.Types)
 	if c.LogS == nil || c.ExprS == nil {
 		return nil, fmt.Errorf("SSA packages missing")
